@@ -30,7 +30,7 @@ CASE_TIMEOUT = {'quick': 120, 'thorough': 300}
 
 
 # appended to RULE in the evidence (vlib/runner.py)
-RULE_ADDENDUM = 'Added in round 5: node / link names that contain the prefixes the implementation uses internally (N_, L_).'
+RULE_ADDENDUM = 'Added in round 5: node / link names that contain the prefixes the implementation uses internally (N_, L_). Round 7: 30 % of the valve layers have their columns ordered node, link.'
 
 def n_cases(tier):
     return 400 if tier == 'quick' else 15000
